@@ -92,8 +92,9 @@ func transport() {
 	}
 	// registration is complete when the server's table has three entries (the handler registers before it blocks)
 	for spins := 0; s.VerifSubs() < 3; spins++ {
-		if spins > 5_000_000 {
-			ev.Broken("transport: subscriptions do not register")
+		if spins > 30_000 { // harness safety (30 s for three in-process registrations), reported, not a crash of the check
+			r.Violation("transport: three subscriptions of one client connection do not become three entries of the server's table", fmt.Sprintf("%d entries", s.VerifSubs()), nil)
+			return
 		}
 		time.Sleep(time.Millisecond)
 	}
